@@ -86,6 +86,17 @@ theorem C15_dihedral_invariant (Rm : M3 R) (t a b c d : V3 R) (h : IsRotation Rm
   · simp only [dihY, cross_cross_dot, C15_dot_invariant Rm t _ _ _ _ ho, C15_triple_invariant Rm t _ _ _ _ _ _ hd]
   · simp only [dihAxisSq, V3.normSq, C15_dot_invariant Rm t _ _ _ _ ho]
 
+/-- The hypothesis `det R = 1` of `C15_dihedral_invariant` is necessary: under an improper orthogonal map
+(`RᵀR = 1`, `det R = −1`, a mirror image) distances, angles and the `x` argument stay, the `y` argument changes sign —
+the dihedral angle is negated. -/
+theorem C15_dihedral_reflection (Rm : M3 R) (t a b c d : V3 R) (ho : Orthogonal Rm) (hd : Rm.det = -1) :
+    dihX (rigid Rm t a) (rigid Rm t b) (rigid Rm t c) (rigid Rm t d) = dihX a b c d ∧
+    dihY (rigid Rm t a) (rigid Rm t b) (rigid Rm t c) (rigid Rm t d) = -dihY a b c d := by
+  refine ⟨?_, ?_⟩
+  · simp only [dihX, cross_dot_cross, C15_dot_invariant Rm t _ _ _ _ ho]
+  · simp only [dihY, cross_cross_dot, rigid_sub, triple_mulVec, hd, dot_mulVec Rm ho]
+    ring
+
 end Rigid
 
 /-- a rational proper rotation (integer quaternion 1+2i+3j+4k) -/
@@ -202,6 +213,46 @@ example : tricEx.det ≠ 0 ∧ isOrthogonal K tricEx = false := by
 example : Short tricEx ((⟨6, 6, 1⟩ : Vec).add (vecMul (ofInts 0 (-1) 0) tricEx)) := by
   simp only [Short, recip0, recip1, recip2, M3.det, triple, V3.normSq, V3.dot, V3.cross, V3.smul, V3.add,
     vecMul, ofInts, tricEx]; norm_num
+
+/-- Minimum image below half the smallest box height for EVERY non-singular box and whichever branch `is_orthogonal`
+selects — in particular for skewed boxes that pass its absolute tolerance (tiny boxes): if some periodic image is shorter
+than half of every box height, the returned displacement is the shortest of all images. -/
+theorem C15_min_image_below_half_height (d : Vec) (b : Box) (hdet : b.det ≠ 0)
+    (hshort : ∃ i j k : Int, Short b (d.add (vecMul (ofInts i j k) b))) :
+    ∃ r, displacement1 K d b = .ok r ∧
+      ∀ i j k : Int, r.normSq ≤ (d.add (vecMul (ofInts i j k) b)).normSq :=
+  displacement1_min_below_half_height C15_gen_consts d b hdet hshort
+
+/-- A singular box is refused (`LinAlgError` of `linalg.inv`) — exactly there: `det = 0 ↔` refusal. -/
+theorem C15_displacement_singular_rejects (d : Vec) (b : Box) :
+    (b.det = 0 → displacement1 K d b = .error .singular) ∧
+    (b.det ≠ 0 → ∃ r, displacement1 K d b = .ok r) :=
+  ⟨fun h => displacement1_singular d b h, fun h => by
+    obtain ⟨r, hr, -⟩ := C15_displacement_lattice d b h
+    exact ⟨r, hr⟩⟩
+
+/-- The index variants refuse a single coordinate of shape `(3,)` (`IndexError`), whatever the other arguments. -/
+theorem C15_index_rank1_rejects (v : Vec) (pairs : List (Int × Int)) (periodic : Bool) (box : BoxArg) (own : Option BoxArg) :
+    (match indexDisplacement K (.v v) pairs periodic box own with | .err .indexError => True | _ => False) := by
+  simp [indexDisplacement]
+
+/-- `repeat_box_coord` refuses exactly the negative amounts (`ValueError`). -/
+theorem C15_repeat_box_negative_rejects (xs : List Vec) (b : Box) (a : Int) :
+    (a < 0 → repeatBoxCoordE K xs b a = .error .valueError) ∧
+    (0 ≤ a → ∃ r, repeatBoxCoordE K xs b a = .ok r ∧ r.1 = repeatBoxCoord K xs b a) := by
+  constructor
+  · intro h
+    have : (1 + 2 * a) ^ 3 < 0 := by
+      have h1 : 1 + 2 * a < 0 := by omega
+      have : (1 + 2 * a) ^ 3 = (1 + 2 * a) * ((1 + 2 * a) * (1 + 2 * a)) := by ring
+      rw [this]; exact mul_neg_of_neg_of_pos h1 (mul_pos_of_neg_of_neg h1 h1)
+    simp [repeatBoxCoordE, this]
+  · intro h
+    have : ¬ (1 + 2 * a) ^ 3 < 0 := by
+      have : (0 : Int) ≤ (1 + 2 * a) ^ 3 := by positivity
+      omega
+    exact ⟨(repeatBoxCoord K xs b a, (cubeShifts K a).flatMap fun _ => List.range xs.length),
+      by simp [repeatBoxCoordE, this], rfl⟩
 
 /-! ## Periodic measurements are functions of the atoms modulo the lattice -/
 
